@@ -13,8 +13,37 @@ func genRecovery(r *rng, index int) *Spec {
 	ha := sp.haNames()
 	M := ha[0]
 	T0 := int64(15000 + r.intn(5000))
-	state := []string{"clean", "equal", "unreplicated_tail", "diverged", "dead_during", "stuck_waiters", "repl_error_after", "failover_returns", "isolated_returns", "clean"}[index%10]
+	state := []string{"clean", "equal", "unreplicated_tail", "diverged", "dead_during", "stuck_waiters", "repl_error_after", "failover_returns", "isolated_returns", "clean", "claims_master", "claims_master"}[index%12]
 	how := "switch_from"
+	if state == "claims_master" {
+		// a replica is detached by hand and is found claiming to be master beside the recorded one;
+		// in some runs the statements that turn it back into a replica fail part of the way
+		x := ha[1+r.intn(len(ha)-1)]
+		at := T0
+		opSQL(sp, &at, x, "STOP SLAVE FOR CHANNEL ''")
+		opSQL(sp, &at, x, "RESET SLAVE ALL FOR CHANNEL ''")
+		flav := r.intn(4)
+		if flav >= 1 {
+			opSQL(sp, &at, x, "SET GLOBAL read_only = 0")
+		}
+		if flav >= 2 {
+			sp.Timeline = append(sp.Timeline, TLEvent{AtMs: at + 20, Kind: "errant_txn", Host: x, N: 1})
+		}
+		fail := r.pick("none", "start_after_change", "start_after_change", "change", "offline")
+		switch fail {
+		case "start_after_change":
+			sp.StmtFail = append(sp.StmtFail, StmtFail{Host: x, Prefix: "START ", After: "CHANGE ", Errno: r.pickInt(1872, 2013, 1105), FromMs: T0, ToMs: T0 + int64(r.pickInt(1500, 6000, 80000))})
+		case "change":
+			sp.StmtFail = append(sp.StmtFail, StmtFail{Host: x, Prefix: "CHANGE ", Errno: 1105, FromMs: T0, ToMs: T0 + int64(r.pickInt(1500, 6000))})
+		case "offline":
+			sp.StmtFail = append(sp.StmtFail, StmtFail{Host: x, Prefix: "SET GLOBAL offline_mode", Errno: 1105, FromMs: T0, ToMs: T0 + int64(r.pickInt(1500, 6000))})
+		}
+		sp.World.AutoResetupMs = int64(r.pickInt(0, 8000, 20000))
+		sp.Variant = fmt.Sprintf("claims_master host=%s flavour=%d failing=%s nHA=%d semi=%v autoresetup=%d", x, flav, fail, len(ha), c.SemiSync, sp.World.AutoResetupMs)
+		sp.DurationMs = T0 + 60000
+		sp.Primary = []string{"C11"}
+		return sp
+	}
 	switch state {
 	case "clean", "equal":
 		sp.Timeline = append(sp.Timeline, TLEvent{AtMs: T0, Kind: "cli_switch_from", Host: ha[r.intn(len(ha))], Arg: M})
